@@ -65,8 +65,8 @@ CLAIMED = {
  "C26": ("path check that each store operation runs at most one transaction (ONE-TX), field-write and call-count check on RPC handlers (STATELESS-SERVICE), freshness of the per-request argument and reply objects in the RPC server (REPLY-FRESH)",
          "Structural argument for linearizability: each operation is exactly one bbolt transaction (bbolt serialises them) and the RPC service adds no state or multi-step handlers, and each request is served with argument and reply objects allocated for it alone. Client reconnect logic, transport and real interleavings are not decided.",
          "trusts go/ssa and bbolt's transaction isolation"),
- "C27": ("dominance of the socket removal by the success edge of Listen (REMOVE-OWN), guard check on every exit of the serve loop (SERVE-WHILE-CLIENTS), closed-channel receive rule on select loops (RECV-CLOSED-ONCE), single-unlink rule (UNLINK-ONCE), dominance of the stale-socket status by errors.Is(err, ECONNREFUSED) (STALE-ONLY-REFUSED)",
-         "Structural clauses: the daemon removes only a socket it successfully listened on, and only once; it leaves its serve loop only on a signal or when no client is connected, with the connection set touched only by the loop, and the loop cannot spin on a closed channel; a shell declares a socket stale only when connecting was refused. The cross-process activation races as a whole are not decided.",
+ "C27": ("dominance of the socket removal by the success edge of Listen (REMOVE-OWN), guard check on every exit of the serve loop (SERVE-WHILE-CLIENTS), closed-channel receive rule on select loops (RECV-CLOSED-ONCE), single-unlink rule (UNLINK-ONCE), dominance of the stale-socket status by errors.Is(err, ECONNREFUSED) (STALE-ONLY-REFUSED); acceptor/loop goroutine separation check on the no-clients exit (SERVE-WHILE-CLIENTS, one known finding)",
+         "Structural clauses: the daemon removes only a socket it successfully listened on, and only once; it leaves its serve loop only on a signal or when no client is connected, with the connection set touched only by the loop, and the loop cannot spin on a closed channel; a shell declares a socket stale only when connecting was refused. The cross-process activation races as a whole are not decided. Known finding: the exit on no clients does not see a connection accepted but not yet registered.",
          "trusts go/ssa"),
  "C31": ("length-lower-bound analysis of every index into lists built from terminal bytes (SEQ-INDEX); constant/provenance evaluation of every read timeout in the terminal reader (TIMEOUT-ALL); paired-comparison rule on utf8.RuneError (RUNEERROR-WIDTH)",
          "Structural necessary conditions: ('without crashing') every index or slice operation of the decoder on a list built from terminal bytes is within a length established on every path; ('never blocks past its timeout') every read after the first byte of an event carries a timeout that is a positive package constant or the caller's own; blocking reads are first on every path and outside loops. Decoding correctness is not decided. RUNEERROR-WIDTH: U+FFFD counts as a decoding failure only together with the reported width.",
@@ -74,8 +74,8 @@ CLAIMED = {
  "C33": ("who-may-construct rule for ui.Text values with a guarded single-segment idiom and an audit table (NF-BUILDER), freshness of what TextBuilder.Text returns (BUILDER-FRESH), bounds-differ guard on returned slices of a text (SLICE-NONEMPTY); who-may-write rule on elements of ui.Text outside pkg/ui (TEXT-ELEM-STORE)",
          "Structural necessary condition for the normal-form clause inside pkg/ui: a Text is assembled by hand only inside the normalising API (TextBuilder, TextFromSegment, Concat), as a single non-empty segment, or at audited sites that preserve normal form; one known finding (StyleText, pinned by an existing unit test); the builder never hands out its own array; an empty slice of a text is nil. Content equalities and the styledown round trip are not decided. TEXT-ELEM-STORE: no segment of a styled text is replaced in place outside pkg/ui.",
          "trusts go/ssa and the normalising API itself; Text values assembled outside pkg/ui are not examined"),
- "C40": ("ownership pairing for opened descriptors (OPEN-OWNED), must-call rule for returned cleanup functions on all success paths (CLEANUP-CALLED), close-before-overwrite dominance (REPLACE-CLOSES), spawn/join pairing (JOINED)",
-         "Structural necessary conditions: every descriptor the evaluator opens is closed in place or recorded as owned by a form whose epilogue closes it; every cleanup function of a capture/pipe/file port is called or handed on on every path; a redirection closes the port it replaces; every goroutine is joined. Descriptor counts and the os.Pipe-failure path are not decided.",
+ "C40": ("ownership pairing for opened descriptors (OPEN-OWNED), must-call rule for returned cleanup functions on all success paths (CLEANUP-CALLED), close-before-overwrite dominance (REPLACE-CLOSES), spawn/join pairing (JOINED); guard-dominance on ownership moves and pre-growth of the ownership table before a record pointer is kept (OWN-PAIR d, e)",
+         "Structural necessary conditions: every descriptor the evaluator opens is closed in place or recorded as owned by a form whose epilogue closes it; every cleanup function of a capture/pipe/file port is called or handed on on every path; a redirection closes the port it replaces; every goroutine is joined. Descriptor counts and the os.Pipe-failure path are not decided. OWN-PAIR (d)/(e): ownership is handed over only by an owner, and kept record pointers cannot be invalidated by a reallocation.",
          "trusts go/ssa; audited: process-lifetime /dev/null handle and black-hole drain"),
  "C42": ("constant evaluation of the open-flag table against the mode specification (FLAGS), taint-to-index check on the port table (FD-RANGE), guard check for self-duplication (DUP-SELF), ownership and close-before-overwrite rules (OPEN-OWNED, REPLACE-CLOSES), literal check for the closed port (SENDERR-NONNIL), totality of value I/O on installed ports: non-nil channel in every Port literal and closed-placeholder exclusion before every send (PORT-TOTAL), control-dependence check of the invalid-fd decision (FD-VALID), shape check of the file table handed to os.StartProcess (FD-POSITIONAL)",
          "Structural necessary conditions: each redirection mode compiles to exactly its open(2) flags, evaluated fds are range-checked on both sides before indexing or growing the port table, n>&n does not reuse a port it just closed, files opened by a redirection are owned by the form, the replaced port is closed, n>&- installs a port whose value output raises, and whether an fd is invalid depends on the number and the table entry only, never on the state of the port found; a port shared after n>&m is not closed under the other fd; an external command gets one file slot per port. Actual byte routing is not decided.",
